@@ -268,6 +268,29 @@ def removal_scenario(sid):
     return {"id": sid, "role": "", "steps": steps}
 
 
+def silent_node_scenario(sid, rng, after, role="slave"):
+    """A description announces a new node that accepts connections but never answers (a hung redis): the refresher's INFO
+    request to it runs into its own deadline (3 s, real time), the node is not used, and - the point - the descriptions
+    that follow are adopted as usual."""
+    cat = {c[0]: c for c in catalogue()}
+    d2 = copy.deepcopy(default_desc())
+    if role == "slave":
+        d2.append(node("x1", "slave", masterOf="n1", loading=True))   # (for the specification: a new replica that is not usable)
+    else:
+        by(d2, "n3").update(ranges=[[10923, 14000]])
+        d2.append(node("x1", "master", ranges=[(14001, 16383)]))
+    steps = [step([st(op="topo", desc=default_desc(), kind=""), st(op="refresh")]),
+             step([st(op="npause", n="x1")]),
+             step([st(op="topo", desc=d2, kind=""), st(op="refresh", count=1)]),
+             {"stim": [st(op="waitidle", count=20000)], "settle": False, "noIter": True}]
+    for lab in after:
+        steps.append(step([st(op="topo", desc=cat[lab][1], kind=cat[lab][2]), st(op="refresh")]))
+        steps += probes(cat[lab][1], rng)
+    steps.append(step([st(op="nresume", n="x1")]))
+    steps.append(step([st(op="topo", desc=default_desc(), kind=""), st(op="refresh")]))
+    return {"id": sid, "role": "", "steps": steps}
+
+
 def spread_scenario(sid, pattern, master_range, n, rng, order="", repl=REPL):
     lo, hi = master_range
     steps = [step([st(op="topo", desc=reorder(default_desc(repl), order, rng), kind=""), st(op="refresh")])]
@@ -471,6 +494,13 @@ def run_generic(pid, tier, seed):
             for a, b in chosen:
                 scs.append(history_scenario("pair-%s+%s" % (a[0], b[0]), [a, b], rng))
                 scs.append(once_each_scenario("once-%s+%s" % (a[0], b[0]), [a, b]))
+            if pid == "C14":
+                # a newly announced node that never answers the refresher's INFO request does not stop later updates
+                sil = [silent_node_scenario("silent-new-replica", rng, ["slot-moved", "failover"])]
+                if not q:
+                    sil += [silent_node_scenario("silent-new-replica-2", rng, ["reply-err", "node-removed"]),
+                            silent_node_scenario("silent-new-replica-3", rng, ["role-swap"])]
+                groups.append((dict(CFG), sil, "silent", {}))
             if pid == "C14" and q:
                 # (quick tier: conformance with RcTopo for a part of the ordinary scenarios and all forced interleavings)
                 groups.append((dict(CFG), scs[:45], "topo", {}))
